@@ -93,6 +93,7 @@ GET_DESC = lambda t, i, wl: S(0x80, 6, (t << 8) | i, 0, wl)      # noqa: E731
 SET_ADDRESS = lambda a: S(0x00, 5, a)                           # noqa: E731
 SET_CONFIG = lambda c: S(0x00, 9, c)                            # noqa: E731
 GET_STATUS = S(0x80, 0, 0, 0, 2)
+GET_CONFIGURATION = S(0x80, 8, 0, 0, 1)
 
 
 def ack0(seq, nump, **kw):
@@ -200,6 +201,8 @@ def sc_enumeration(rng, quick):
                 + ctl_nodata(S(0x00, 49, 40))                          # SET_ISOCH_DELAY -> ACK
                 + ctl_in(GET_STATUS)
                 + ctl_stall_in(S(0xC0, 7, 0, 0, 4)) + [("quiet",)]))   # vendor IN request -> STALL
+    out.append(("get-configuration-unconfigured", bringup() + ctl_in(GET_CONFIGURATION) + set_address(a) + ctl_in(GET_CONFIGURATION)
+                + ctl_nodata(SET_CONFIG(0)) + ctl_in(GET_CONFIGURATION) + [("quiet",)]))
     out.append(("class-request", bringup() + set_address(b) + ctl_nodata(S(0x21, 9, 0)) + [("quiet",)]))
     out.append(("readdress", bringup() + set_address(a) + ctl_in(GET_DESC(1, 0, 18)) + set_address(b)
                 + ctl_in(GET_DESC(1, 0, 18)) + set_address(0) + ctl_in(GET_DESC(1, 0, 4)) + [("quiet",)]))
@@ -223,6 +226,12 @@ def sc_control_witness(rng, quick):
                 + [("quiet",)]))
     out.append(("setup-after-class-request", bringup() + ctl_nodata(S(0x21, 9, 0)) + set_address(b)
                 + ctl_in(GET_DESC(1, 0, 18)) + [("quiet",)]))
+    # finding get-configuration-always-zero: the configuration register is not wired to the request handler
+    for c in (1, 2) if quick else (1, 2, 0x55, 0xAA, 255):
+        out.append(("get-configuration-after-set-configuration-%d" % c, bringup() + set_address(b) + ctl_nodata(SET_CONFIG(c))
+                    + ctl_in(GET_CONFIGURATION) + ctl_in(GET_STATUS) + [("quiet",)]))
+    out.append(("get-configuration-after-reset", bringup() + set_address(b) + ctl_nodata(SET_CONFIG(1)) + retrain("hot")
+                + ctl_in(GET_CONFIGURATION) + [("quiet",)]))
     return [(n, ("witness", sc)) for n, sc in out]
 
 
@@ -270,10 +279,11 @@ def sc_linkdown(rng, quick):
     a, b = 21, 77
     transfer = [("setup", SET_ADDRESS(b)), STATUS0, ("setup", GET_DESC(1, 0, 18)), ack0(0, 1), ack0(1, 0), STATUS0]
     offs = [0, 3, 9, 16] if quick else list(range(0, 24, 1))
+    rot = rng.randrange(3)            # the quick tier takes a third of the (kind, phase, offset) grid, rotated by the seed
     for kind in ("recover", "hot", "warm"):
         for phase in range(len(transfer)):
             for d in offs:
-                if quick and (phase + d + len(kind)) % 3 and not (phase in (1, 3) and d == 3):
+                if quick and (phase + d + len(kind) + rot) % 3 and not (phase in (1, 3) and d == 3):
                     continue
                 s = bringup() + set_address(a)
                 for i, op in enumerate(transfer[:phase + 1]):
@@ -395,7 +405,60 @@ def sc_bulk(rng, quick):
                                                         ("wait", 60), ("quiet",), ack0(0, 1), ("wait_dev", 1),
                                                         ack0(1, 0), STATUS0, ("wait_dev", 1), ("quiet",)]
     out.append(("bulk-request-inside-control-transfer", s))
+    # ... the same while the bulk endpoint holds nothing (NRDY; the control endpoint must stay silent), for both kinds of
+    # data stage, then data -> ERDY -> packet, then the control transfer is completed
+    for nm, setup in (("descriptor", GET_DESC(2, 0, 9)), ("status", GET_STATUS)):
+        data = [rng.getrandbits(8) for _ in range(clean_len(rng, 1))]
+        s = bringup() + enumerate_device(12, short=True) + [("setup", setup), ("wait_dev", 1), ("mark_served",),
+                                                            ("tp", dict(sub="ack", ep=EP_IN, seq=0, nump=1)), ("wait_dev", 1),
+                                                            ("wait", 40), ("quiet",), ("feed", data, True),
+                                                            ("serve_in", EP_IN, 0, 0), ("wait", 20), ack0(0, 1), ("wait_dev", 1),
+                                                            ack0(1, 0), STATUS0, ("wait_dev", 1), ("quiet",)]
+        out.append(("empty-bulk-request-inside-%s-transfer" % nm, s))
     return out
+
+
+def sc_in_flow(rng, quick):
+    """C46 in composition: NRDY / ERDY flow control through the multiplexer and the shared generator, one alignment per
+    scenario (a hit of an open C46 finding leaves the endpoint stuck).  Offsets are relative to the host's packet leaving;
+    the IN request is *reported* to the endpoint about 10 cycles later, so x = 0..29 covers both sides of every window.
+      poll-vs-data      IN request, the packet-completing word x cycles later (before / in the cycle of / while the NRDY is
+                        being sent / after it)
+      repoll-vs-erdy    IN request -> NRDY, data, a second IN request x cycles after the data (before / during / after ERDY)
+      ack-vs-next       acknowledging ACK with NumP = 1, the next packet completing x cycles later
+    The reactive host (`serve_in`) polls after an ERDY, waits after an NRDY, acknowledges the data packet."""
+    out = []
+    # (the windows of the three open findings that show here lie at x = 4..9; the quick tier sweeps x = 2..12)
+    xs = list(range(2, 13)) if quick else list(range(0, 30))
+    poll = lambda seq, **kw: ("tp", dict(sub="ack", ep=EP_IN, seq=seq, nump=1), kw)       # noqa: E731
+    for shape, n in (("3w", 12), ("short", 10)) if not quick else (("3w", 12),):
+        for x in xs:
+            data = [rng.getrandbits(8) for _ in range(n)]
+            out.append(("poll-vs-data-%s+%d" % (shape, x),
+                        bringup() + [("mark_served",), poll(0, nowait=True), ("wait", x), ("feed", data, True), ("serve_in", EP_IN, 0, 1),
+                                     ("quiet",)]))
+    for x in xs:
+        data = [rng.getrandbits(8) for _ in range(12)]
+        out.append(("repoll-vs-erdy+%d" % x,
+                    bringup() + [poll(0), ("wait_dev", 1), ("mark_served",), ("feed", data, True), ("wait", x),
+                                 poll(0, nowait=True),
+                                 ("serve_in", EP_IN, 0, 1), ("quiet",)]))
+    for x in (xs if quick else xs[:16]):
+        # a second IN request (the host may poll without an ERDY) that reaches the endpoint around the data's arrival: before
+        # it (NRDY again), while the ERDY is being sent, after it
+        data = [rng.getrandbits(8) for _ in range(12)]
+        out.append(("repoll-around-data+%d" % x,
+                    bringup() + [poll(0), ("wait_dev", 1), ("mark_served",), poll(0, nowait=True), ("wait", x),
+                                 ("feed", data, True), ("serve_in", EP_IN, 0, 1), ("quiet",)]))
+    for x in xs:
+        d1 = [rng.getrandbits(8) for _ in range(12)]
+        d2 = [rng.getrandbits(8) for _ in range(12)]
+        out.append(("ack-vs-next+%d" % x,
+                    bringup() + [("feed", d1, True), ("wait_feed",), ("wait", 6), poll(0), ("wait_dev", 1),
+                                 ("mark_served",), ("tp", dict(sub="ack", ep=EP_IN, seq=1, nump=1), {"nowait": True}),
+                                 ("wait", x),
+                                 ("feed", d2, True), ("serve_in", EP_IN, 1, 1), ("quiet",)]))
+    return [(nm, ("mixed", sc)) for nm, sc in out]
 
 
 def sc_bulk_witness(rng, quick):
@@ -403,15 +466,23 @@ def sc_bulk_witness(rng, quick):
 
 
 def _sc_bulk_witness(rng, quick):
-    """Witness class: triggers of the multiplexer finding (a poll while the endpoint holds no data: the NRDY never reaches
-    the transaction packet generator) and of the open C46 finding last-beat-withdrawn (a 5..8-byte packet)."""
+    """Regression of the (fixed) multiplexer finding -- a poll while the endpoint holds no data, data after the NRDY -- and
+    witness class of two open C46 findings whose triggers are *deterministic* in the composition: a packet of 5..8 bytes
+    (two stream words: the last one is offered while the one-word buffer of the link's DataPacketTransmitter still holds the
+    first and the header packet has not left -> withdrawn: last-beat-withdrawn-when-tx-not-ready) and a packet of 1..4 bytes
+    (single-beat-packet-parameters: length / sequence / endpoint of the data header are 0)."""
     out = []
     s = bringup() + enumerate_device(5, short=True) + [("tp", dict(sub="ack", ep=EP_IN, seq=0, nump=1)), ("wait", 40), ("quiet",)]
     out.append(("poll-without-data", s))
     data = [rng.getrandbits(8) for _ in range(20)]
-    s = bringup() + enumerate_device(5, short=True) + [("tp", dict(sub="ack", ep=EP_IN, seq=0, nump=1)), ("wait", 30),
-                                                       ("feed", data, True), ("wait_feed",), ("wait", 60), ("quiet",)]
+    s = bringup() + enumerate_device(5, short=True) + [("mark_served",), ("tp", dict(sub="ack", ep=EP_IN, seq=0, nump=1)), ("wait", 30),
+                                                       ("feed", data, True), ("serve_in", EP_IN, 0, 1), ("quiet",)]
     out.append(("data-after-nrdy", s))
+    for n in ((6, 8, 3) if quick else (1, 2, 3, 4, 5, 6, 7, 8)):
+        data = [rng.getrandbits(8) for _ in range(n)]
+        s = bringup() + [("feed", data, True), ("wait_feed",), ("wait", 6), ("mark_served",),
+                         ("tp", dict(sub="ack", ep=EP_IN, seq=0, nump=1)), ("serve_in", EP_IN, 0, 1, 80), ("quiet",)]
+        out.append(("packet-of-%d-bytes" % n, s))
     return out
 
 
@@ -449,8 +520,12 @@ def prepare(items):
                 if key not in hidx:
                     hdrs.append(list(key))
                     hidx[key] = len(hdrs)
+                w = r["w"]
                 r = {k: v for k, v in r.items() if k != "w"}
                 r["h"] = hidx[key]
+                # (classification aid only; the specification decodes the table row itself)
+                r["_k"] = "dp" if w[0] & 0x1F == 8 else {1: "ack", 2: "nrdy", 3: "erdy", 5: "stall"}.get(w[2] & 0xF, "?") \
+                    if w[0] & 0x1F == 4 else "other"
             elif e in ("dp_rx", "ddp"):
                 key = (tuple(r["b"]), tuple(r["crc"]))
                 if key not in pidx:
@@ -464,7 +539,7 @@ def prepare(items):
 
 
 HANDLED = (0, 5, 6, 8, 9, 48, 49)
-KNOWN_TRIGGERS = ("setup_while_standard_handler_busy", "setup_answered_with_stall", "in_request_without_data_nrdy_never_sent",
+KNOWN_TRIGGERS = ("setup_while_standard_handler_busy", "setup_answered_with_stall", "get_configuration_after_set_configuration",
                   "last_beat_withdrawn_while_tx_not_ready")
 
 
@@ -500,6 +575,73 @@ def _control_history(pre, pays):
     return tainted, a_trigger
 
 
+# open C46 findings (known_findings.json, found by engine ss_proto on the endpoint alone) as they show in the composition:
+# pattern -> the clause name of the existing signature
+C46_CLAUSE = {"packet_completed_while_nrdy_was_being_sent": "erdy_missing",
+              "poll_while_erdy_is_being_sent_dropped": "request_unanswered",
+              "last_word_accepted_in_cycle_of_acknowledging_ack": "packet_stuck",
+              "last_beat_withdrawn_while_tx_not_ready": "dp_truncated",
+              "single_beat_packet_parameters_not_driven": "dp_parameters"}
+
+
+def _c46_cause(pre, status):
+    """Normalised causes of the open C46 findings, from the recorded events (with their cycles) before the failing one."""
+    if status not in ("response_missing", "tp_requested_not_sent", "dp_payload_missing", "tp_subtype", "tp_not_owed",
+                      "dp_not_owed", "dp_payload", "dp_length", "dp_sequence", "dp_header_without_payload"):
+        return None
+    held = closed = 0
+    inflight = False
+    nrdy_from = None            # cycle of an IN request answered NRDY whose NRDY is not yet on the wire
+    erdy_from = None            # cycle of the packet completion that owes an ERDY not yet on the wire
+    fc = False
+    hits = []
+    for r in pre:
+        e = r["e"]
+        if e == "w":
+            held += len(r["b"])
+            closes = r["last"] or held % MAX_PKT == 0
+            if r["last"] and 4 < held <= 8:
+                hits.append("last_beat_withdrawn_while_tx_not_ready")
+            elif r["last"] and held <= 4:
+                hits.append("single_beat_packet_parameters_not_driven")
+            if closes:
+                if r["last"]:
+                    held = 0
+                if nrdy_from is not None and closed == 0:
+                    hits.append("packet_completed_while_nrdy_was_being_sent")
+                if r.get("_ack_t") is not None:
+                    pass
+                if fc and closed == 0 and not inflight:
+                    erdy_from = r["t"]
+                    fc = False
+                closed += 1
+        elif e == "tp" and r["ep"] == EP_IN and r["sub"] == 1:
+            advancing = inflight and r["rty"] == 0 and r.get("_adv", True)
+            if inflight and r["rty"] == 0:
+                inflight = False
+                closed = max(0, closed - 1)
+                # a `last` word accepted in this very cycle?
+                if any(x["e"] == "w" and x["t"] == r["t"] and x["last"] for x in pre):
+                    hits.append("last_word_accepted_in_cycle_of_acknowledging_ack")
+            if r["nump"] > 0:
+                if erdy_from is not None:
+                    hits.append("poll_while_erdy_is_being_sent_dropped")
+                if closed > 0:
+                    inflight = True
+                else:
+                    nrdy_from = r["t"]
+                    fc = True
+        elif e == "dhp" and "w" in r:
+            pass
+        elif e == "dhp":
+            kind = r.get("_k")
+            if kind == "nrdy":
+                nrdy_from = None
+            elif kind == "erdy":
+                erdy_from = None
+    return hits[0] if hits else None
+
+
 def _cause(trace, k, status, pays):
     """Normalised cause of a rejection, computed from the recorded events before the failing record k (1-based)."""
     pre = trace[:k - 1]
@@ -521,10 +663,13 @@ def _cause(trace, k, status, pays):
             polled_empty = True
         elif r["e"] == "ddp":
             closed = max(0, closed - 0)
-    if polled_empty and status in ("response_missing", "tp_requested_not_sent", "dp_not_owed", "tp_not_owed"):
-        return "in_request_without_data_nrdy_never_sent"
-    if short_pkt and status in ("dp_payload_missing", "response_missing", "dp_payload", "dp_length"):
-        return "last_beat_withdrawn_while_tx_not_ready"
+    k46 = _c46_cause(pre, status)
+    if k46:
+        return k46
+    setups = [pays[r["p"] - 1]["b"] for r in pre if r["e"] == "dp_rx" and r["setup"] and r["len"] == 8 and not r.get("cor")]
+    if status == "dp_payload" and setups and setups[-1][:2] == [0x80, 8] and any(
+            b[:2] == [0x00, 9] and b[2] != 0 for b in setups):
+        return "get_configuration_after_set_configuration"
     stuck, a_trigger = _control_history(pre, pays)
     last_host = next((r for r in reversed(pre) if r["e"] in ("dp_rx", "tp", "itp")), {})
     if a_trigger and status in ("tp_subtype", "tp_not_owed") and bad.get("e") == "dhp" and last_host.get("e") == "dp_rx" \
@@ -545,9 +690,11 @@ def classify(trace, matched, status, meta, pays):
         raise tlc.TLCError("stimulus left the Env assumptions (%s) in %s at step %d: %s"
                            % (status, {a: b for a, b in meta.items() if a != "_script"}, k, trace[max(0, k - 5):k]))
     pattern = _cause(trace, k, status, pays)
-    if meta.get("class") == "clean" and pattern in KNOWN_TRIGGERS:
+    if meta.get("class") == "clean" and (pattern in KNOWN_TRIGGERS or pattern in C46_CLAUSE):
         pattern += "_in_clean_stimulus"          # the clean class stays away from the triggers: never a known finding
-    return {"clause": status, "pattern": pattern, "engine": ENGINE, "family": meta.get("family")}
+    # the open C46 findings keep the signature (clause name, pattern) under which engine ss_proto registered them
+    return {"clause": C46_CLAUSE.get(pattern, status), "pattern": pattern, "engine": ENGINE, "family": meta.get("family"),
+            "trace_clause": status}
 
 
 def validate(rep, items):
@@ -567,6 +714,7 @@ def validate(rep, items):
         if st == "ok" and m == len(bad):
             raise tlc.TLCError("self-test: a corrupted trace (a device transaction packet removed) was accepted")
     ok = steps = 0
+    rejected = {}
     for (trace, meta), (matched, status) in zip(prepared, verdicts):
         n = len(trace)
         if status == "ok" and matched == n:
@@ -575,6 +723,7 @@ def validate(rep, items):
             continue
         sig = classify(trace, matched, status, meta, tab["pays"])
         k = matched if status != "ok" else matched + 1
+        rejected.setdefault("%s/%s" % (status, sig["pattern"]), []).append(meta.get("scenario"))
         meta = dict(meta)
         script = meta.pop("_script", None)
         what = "USBSuperSpeedDevice %s: real-gateware trace rejected by SsDeviceTrace at step %d/%d, clause '%s' (%s); last " \
@@ -582,6 +731,8 @@ def validate(rep, items):
         rep.violation(sig, what, {"meta": meta, "failing_step": k, "clause": status, "trace_prefix": trace[:k + 1],
                                   "script": script})
     rep.add_traces(ok, steps)
+    for key, names in sorted(rejected.items()):
+        rep.notes.append("ss_device rejected [%s]: %s" % (key, ", ".join(str(n) for n in names[:40])))
     return ok
 
 
@@ -622,9 +773,9 @@ MC = {
     "rx": _mc(["ctl", "bad"], 9),
     "bulk": _mc(["in", "rst"], 10, MaxBytes=3),
     "itp": _mc(["itp", "ctl"], 9),
-    "control+": _mc(["ctl", "rst", "bad"], 12, Setups="SetupsThorough"),
+    "control+": _mc(["ctl", "rst", "bad"], 11, Setups="SetupsThorough"),        # 23 k states / 346 k transitions
     "rx+": _mc(["ctl", "bad", "rst"], 11),
-    "bulk+": _mc(["in", "rst", "ctl"], 11, MaxBytes=4),
+    "bulk+": _mc(["in", "rst"], 12, MaxBytes=4),                                 # 27 k / 200 k (with "ctl": > 25 min)
     "itp+": _mc(["itp", "ctl", "in"], 10, MaxBytes=2),
 }
 
@@ -645,7 +796,7 @@ def script_from_behaviour(beh, rng):
     skip_first_up = True
     mapping = {(128, 6, 256): GET_DESC(1, 0, 2), (128, 6, 768): GET_DESC(3, 7, 8), (128, 6, 512): GET_DESC(2, 0, 9),
                (0, 5, 5): SET_ADDRESS(5), (0, 9, 1): SET_CONFIG(1), (0, 3, 1): S(0, 3, 1), (128, 0, 0): GET_STATUS,
-               (64, 1, 0): S(0x40, 1, 0), (192, 1, 0): S(0xC0, 1, 0, 0, 4)}
+               (64, 1, 0): S(0x40, 1, 0), (192, 1, 0): S(0xC0, 1, 0, 0, 4), (128, 8, 0): GET_CONFIGURATION}
     for _a, stv in beh[1:]:
         e = stv["ev"]
         k = e.get("e")
@@ -796,7 +947,7 @@ def extra_C48(rep):
 
 
 def extra_C46(rep):
-    _run(rep, "C46", [("bulk", sc_bulk), ("bulk_witness", sc_bulk_witness)], ["bulk"])
+    _run(rep, "C46", [("bulk", sc_bulk), ("bulk_witness", sc_bulk_witness), ("in_flow", sc_in_flow)], ["bulk"])
 
 
 def extra_C47(rep):
